@@ -15,3 +15,7 @@ chk("C05", "model_checking",
     "Deviation-bounded exhaustive sweep: ~300 (quick) / several thousand (thorough) well-formed base documents over the combinations of optional members, and every single defect of each kind the statement lists at every position (spec level, first/middle/last device, first/last list element; thorough adds all defect pairs on a core), rendered as JSON and YAML and pushed through ParseSpec, ReadSpec, cache load and WriteSpec; verdicts compared with an independent validator over the document tree.",
     "Trusted: the reference validator (refmodel.SpecTree) transcribed from the statement, cross-checked against the generator's intent on every run (disagreement = exit 2). Documents the statement does not settle (null for optional members, scalar-for-string coercions, v-prefixed versions) are checked for crashes only. YAML renderings that do not denote the same tree for the reader are skipped and counted.",
     "deviation-bounded exhaustive enumeration of documents vs reference validator", "DESIGN.md §3 C05")
+chk("C08", "model_checking",
+    "Every member position of the document model x an 18-value type-confusion domain (single deviations; thorough adds pairs), every byte string up to length 3/4 over 29 structural bytes, and a set of stress documents are pushed through every reading entry point, the schema validators and - when they load - injection into six OCI spec shapes; the same documents are also loaded by the background refresh goroutine of an auto-refresh cache in worker subprocesses whose death is attributed to the document in flight. Complete enumeration of the stated finite space; oracle = no panic / process alive / error entry for files that do not load.",
+    "Trusted: panic detection by recover() in-process and by process exit for the watcher goroutine; hang detection is a 90 s watchdog that aborts with exit 2 (infrastructure), not an oracle. Inputs outside the confusion domain / byte alphabet / length bound are not covered.",
+    "deviation-bounded exhaustive enumeration of malformed inputs; crash oracle incl. subprocess isolation for the watcher goroutine", "DESIGN.md §3 C08")
